@@ -47,7 +47,7 @@ def build_equilibrium(cfg):
         eq, full = E.make_circular(opts)
         return eq, full, None
     if fam == "tokamak":
-        wall = E.default_wall(slanted=(cfg.get("wall") == "slanted"), mirror=cfg.get("mirror", False))
+        wall = E.default_wall(slanted=("many" if cfg.get("wall") == "many" else cfg.get("wall") == "slanted"), mirror=cfg.get("mirror", False))
         if cfg.get("wall_clockwise"):
             wall = wall[::-1]
         eq, arrays = E.make_tokamak(cfg["geometry"], opts, fpol=fpol_func(cfg.get("fpol")), pressure=pressure_func(cfg.get("pressure")),
